@@ -309,8 +309,8 @@ def rule_b(ctx: Context, R: Reporter, cc: ClassInfo, v: FuncInfo):
 def run(ctx: Context, R: Reporter):
     cc = config_class(ctx)
     v = validate_fn(ctx, cc)
-    rule_a(ctx, R, cc, v)
-    rule_b(ctx, R, cc, v)
+    R.guard(rule_a, ctx, R, cc, v)
+    R.guard(rule_b, ctx, R, cc, v)
 
 
 def variants():
